@@ -7,10 +7,32 @@ dumped through every accessor and printed by A's generated code and must equal B
 A-built buffers go through B's code and must show the new fields absent; the T2 descriptors of the two generated
 verifiers must satisfy the `restricts` relation computed by the extracted model.
 """
-import os, re, random
+import os, re, random, json
 from . import lib
 from gen import c01gen, fbenc
 from translators import verifier_h_to_desc as t2
+
+
+def split_json(line):
+    """'... P n J hex' -> (line without the J part, text bytes or None)"""
+    m = re.search(r' J ([0-9a-f]*)$', line)
+    if not m: return line, None
+    return line[:m.start()], bytes.fromhex(m.group(1))
+
+
+def json_problem(text):
+    """None when the printed text is a JSON document (non-finite float tokens tolerated: they are C05's clause, not C09's)."""
+    t = text.decode('latin-1')
+    try:
+        json.loads(t); return None
+    except ValueError as e:
+        err = str(e)
+    # tolerate bare nan / inf tokens (outside strings) of non-finite random floats
+    t2 = re.sub(r'"(?:[^"\\]|\\.)*"|(-?\b(?:nan(?:\([0-9a-fA-F]*\))?|inf(?:inity)?)(?![A-Za-z0-9_]))', lambda m: '0' if m.group(1) else m.group(0), t, flags=re.I)
+    try:
+        json.loads(t2); return None
+    except ValueError as e:
+        return '%s: ...%s...' % (e, t2[max(0, e.pos - 40):e.pos + 20] if hasattr(e, 'pos') else '')
 
 
 def build(ctx, S, name, mask, fl):
@@ -53,7 +75,7 @@ def run(ctx):
     nvals = 40 if ctx.thorough else 12
     for pi in range(npairs):
         r = random.Random(5000 + pi) if pi < npairs // 2 else rng
-        A, B = c01gen.evolve_pair(r, nstructs=r.randint(1, 3), ntables=r.randint(2, 4), nunions=r.randint(1, 2))
+        A, B = c01gen.evolve_pair(r, nstructs=r.randint(1, 3), ntables=r.randint(2, 4), nunions=r.randint(1, 2), nenums=r.randint(1, 3))
         na, nb = 'a%d' % pi, 'b%d' % pi
         ra, ea = build(ctx, A, na, None, fl)
         rb, eb = build(ctx, B, nb, A, fl)
@@ -91,7 +113,11 @@ def run(ctx):
         oa = lib.run_harness_resilient(HA, lines); ob = lib.run_harness_resilient(HB, lines)
         for l, a, b in zip(lines, oa, ob):
             ctx.count(l, klass='new_buffer_old_code')
+            a, ja = split_json(a); b, jb = split_json(b)
             rep = dict(rep0, harness_line=l, old_code=a[:2000], new_code=b[:2000])
+            if ja is not None and json_problem(ja):
+                ctx.violation('old-printer-invalid-json', 'old JSON printer reports success on a buffer of the extended schema but its text is not JSON: %s' % json_problem(ja)[:200],
+                              dict(rep, old_printer_text=ja.decode('latin-1')[:3000]))
             if not b.startswith('V 0 D'):
                 ctx.violation('encoder-invalid', 'independent encoder produced a buffer the NEW verifier rejects or its reader crashes: %s' % b[:200], rep); continue
             if not a.startswith('V 0'):
@@ -117,7 +143,11 @@ def run(ctx):
         oa = lib.run_harness_resilient(HA, lines); ob = lib.run_harness_resilient(HB, lines)
         for l, a, b in zip(lines, oa, ob):
             ctx.count(l, klass='old_buffer_new_code')
+            a, ja = split_json(a); b, jb = split_json(b)
             rep = dict(rep0, harness_line=l, old_code=a[:2000], new_code=b[:2000])
+            if jb is not None and json_problem(jb):
+                ctx.violation('new-printer-invalid-json', 'new JSON printer reports success on a buffer of the old schema but its text is not JSON: %s' % json_problem(jb)[:200],
+                              dict(rep, new_printer_text=jb.decode('latin-1')[:3000]))
             if not a.startswith('V 0 D'):
                 ctx.violation('encoder-invalid', 'independent encoder produced a buffer the OLD verifier rejects: %s' % a[:200], rep); continue
             if not b.startswith('V 0'):
